@@ -229,6 +229,15 @@ func checkC06(s *C06Spec) Result {
 			return fail("prints %s: %d envelopes, but the same container around Safe(1) prints %s", q(got.out), bytes.Count(got.out, []byte(startS)), q(base.out))
 		}
 	}
+	// S3: a SafeFormatter whose method only issues writer primitives (no
+	// operands of its own that could carry a classification, no panic): under
+	// Safe() even its Unsafe* and io.Writer-side payloads are not enveloped
+	if s.Chain[0] == "safe" && !s.HasHook && verb != "p" && verb != "T" && glueKnown && flatSafeFormatter(s.X) {
+		res.Classes = append(res.Classes, "safe(flat SafeFormatter)")
+		if hasMarker(got.out) {
+			return fail("output %s contains an envelope although x only writes primitives to its SafePrinter", q(got.out))
+		}
+	}
 	switch s.Chain[0] {
 	case "unsafe":
 		// U1: everything of x is inside envelopes
@@ -285,6 +294,23 @@ func checkC06(s *C06Spec) Result {
 		}
 	}
 	return res
+}
+
+var flatOpKinds = map[string]bool{"SafeString": true, "SafeInt": true, "SafeUint": true, "SafeFloat": true, "SafeRune": true, "SafeByte": true, "SafeBytes": true,
+	"UnsafeString": true, "UnsafeRune": true, "UnsafeByte": true, "UnsafeBytes": true, "Write": true, "WriteString": true, "WriteByte": true, "WriteRune": true}
+
+// flatSafeFormatter: x is a SafeFormatter whose script consists of writer
+// primitives only.
+func flatSafeFormatter(v *Val) bool {
+	if v == nil || (v.K != "safefmt" && v.K != "psafefmt" && v.K != "errsafefmt") || len(v.Ops) == 0 {
+		return false
+	}
+	for _, op := range v.Ops {
+		if !flatOpKinds[op.K] {
+			return false
+		}
+	}
+	return true
 }
 
 func hasOpKind(v *Val, k string) bool {
